@@ -15,6 +15,44 @@ DEFAULT_VISIBLE = ["start", "exit", "child-start", "fork-parent", "select", "tok
                    "init-check", "init-read", "init-unlink", "init-connect", "init-create", "init-runid"]
 
 
+class MakePlayer:
+    """The GNU-make parent as an environment player: it owns the token pipe and, like any other job of the same
+    make, may take a token out of it (only while everything else is parked, so the read cannot race) and put it
+    back later.  Every take and every voluntary put is a deviation; a put is forced when nothing else can run."""
+
+    def __init__(self, rfd, wfd, takes):
+        self.rfd, self.wfd, self.takes_left, self.held = rfd, wfd, takes, 0
+
+    def choices(self):
+        import select as _s
+        out = []
+        if self.takes_left > 0 and _s.select([self.rfd], [], [], 0)[0]:
+            out.append("make-take")
+        if self.held > 0:
+            out.append("make-put")
+        return out
+
+    def act(self, label):
+        if label == "make-take":
+            import fcntl as _f
+            fl = _f.fcntl(self.rfd, _f.F_GETFL)
+            _f.fcntl(self.rfd, _f.F_SETFL, fl | os.O_NONBLOCK)
+            try:
+                got = os.read(self.rfd, 1)
+            finally:
+                _f.fcntl(self.rfd, _f.F_SETFL, fl)
+            if len(got) != 1:
+                raise SchedError("make player: token vanished while everything was parked")
+            self.held += 1
+            self.takes_left -= 1
+        else:
+            os.write(self.wfd, b"t")
+            self.held -= 1
+
+    def state(self):
+        return "held=%d left=%d" % (self.held, self.takes_left)
+
+
 def execute(scn, devs, bindir, scratch, expect=None):
     """scn: scenario dict; devs: tuple of (step, idx, (lid, kind, label)) deviations from the default schedule.
     Returns a picklable result dict."""
@@ -53,6 +91,7 @@ def execute(scn, devs, bindir, scratch, expect=None):
         sch = Scheduler(str(root), sockpath, str(proj.p / ".redo" / "locks"), scn.get("visible", DEFAULT_VISIBLE), chooser,
                         max_steps=scn.get("max_steps", 3000), poll_at=scn.get("poll_at"),
                         kill_roots=scn.get("kill_roots", ()), max_kills=scn.get("max_kills", 1))
+        player = None
         env = dict(proj.env)
         env["REDO_VERIF_SOCK"] = sockpath
         verdict = None
@@ -73,6 +112,9 @@ def execute(scn, devs, bindir, scratch, expect=None):
             env["REDO_CHEATFDS"] = "%d,%d" % (cr, cw)
             pass_fds = (tr, tw, cr, cw)
             js = {"n": n, "fds": (tr, tw, cr, cw)}
+            if scn.get("make_player"):
+                player = MakePlayer(tr, tw, int(scn["make_player"]))
+                sch.env_player = player
         try:
             for r in scn["roots"]:
                 e = dict(env)
@@ -96,6 +138,8 @@ def execute(scn, devs, bindir, scratch, expect=None):
                 except BlockingIOError:
                     out[nm] = 0
             out["initial_tokens"] = js["n"] - 1
+            out["held_by_make"] = player.held if player else 0
+            out["tokens_left"] += out["held_by_make"]     # what the make parent holds is not lost
             jsres = out
         # observations of the scheduled run itself, taken before any follow-up command
         main_trace = proj.read_trace()
